@@ -534,8 +534,11 @@ def replay_binary(a):
              ("X != \"a\"", "FAIL"), ("X > \"a\"", "FAIL"), ("X !> \"a\"", "FAIL") if False else ("X <= \"a\"", "FAIL"),
              ("Y == 1", "FAIL"), ("Y != 1", "FAIL"), ("X == Y", "FAIL"), ("X in [1, 2]", "PASS"), ("X in [3]", "FAIL"),
              ("X not in [3]", "PASS"), ("L[*] in [1, 2]", "PASS"), ("L[*] == 1", "FAIL"), ("some L[*] == 1", "PASS"),
-             ("E[*] == 1", "FAIL"), ("L[ this == 9 ] == 1", "SKIP")]
-    return a.replay_cases(exe, data, cases)
+             ("E[*] == 1", "FAIL"), ("L[ this == 9 ] == 1", "SKIP"),
+             # a right-hand QUERY that selects nothing: the comparison is SKIP under every negation
+             ("X in %none", "SKIP"), ("X not in %none", "SKIP"), ("not X in %none", "SKIP"), ("not X not in %none", "SKIP"),
+             ("X == %none", "SKIP"), ("X != %none", "SKIP"), ("L[*] not in %none", "SKIP"), ("X > %none", "SKIP")]
+    return a.replay_cases(exe, data, cases, prefix="let none = L[ this == 99 ]\n")
 
 
 # --------------------------------------------------------------------------------------------------
@@ -1162,6 +1165,9 @@ def replay_eq(a):
              ("S != /b/", "PASS"), ("L == L", "PASS"), ("L == L1", "FAIL"), ("X == L1[0]", "PASS"), ("Y == X", "PASS"),
              # a literal on the left (through a variable): the (literal, query) case
              ("%w == X", "PASS"), ("%w == Z", "FAIL"), ("%w != Z", "PASS"), ("%w == L1", "PASS"), ("%w == L", "FAIL"), ("some %w == L", "PASS") if False else ("%w == Y", "PASS"),
+             # a one-element list literal stands for its element only against a SCALAR: a map and a list are different types
+             ("M == [{\"k\": 1}]", "FAIL"), ("M != [{\"k\": 2}]", "FAIL"), ("M != [{\"k\": 1}]", "FAIL"), ("M == {\"k\": 1}", "PASS"), ("S == [\"a\"]", "PASS"),
+             ("L1 == [[1]]", "FAIL"),
 ]
     return a.replay_cases(exe, data, cases, prefix="let w = 1\n")
 
@@ -2627,7 +2633,7 @@ SITES = {
     "C02": [guard_block, type_block, record_tracker, unary_empty_on_expr, binary_records],
     "C09": [binary_records],
     "C10": [binary_records],
-    "C03": [flip_closure, negated_compare_wrapper, parser_clause_wiring, flip_listin, unary_empty_on_expr, flip_queryin, gac_comparator_pair],
+    "C03": [binary_operation, flip_closure, negated_compare_wrapper, parser_clause_wiring, flip_listin, unary_empty_on_expr, flip_queryin, gac_comparator_pair],
     "C13": [flip_closure, operator_dispatch, binary_operation, match_value, common_operator, contained_in, eq_operation, in_operation, list_map_equality, value_partial_eq, flip_listin, flip_queryin],
     "C18": [function_dispatch, elementwise, join_sequence, function_args, substring_offsets, case_converters],
     "C15": [function_args, empty_on_expr_condition],
